@@ -63,11 +63,19 @@ fn case<R: KhRing>(ctx: &mut Ctx, rng: &mut Rng) where for<'x> &'x R: EucRingOps
         let (ad, ae) = if n <= 6 { (rng.chance(3, 4), rng.chance(3, 4)) } else { (rng.chance(3, 4), true) };
         // a third of the non-default builds are divide-and-conquer: two halves glued by TngComplex::connect
         let split = if n >= 2 && rng.chance(1, 3) { Some(rng.urange(1, n - 1)) } else { None };
-        BuildCfg { order, auto_deloop: ad, auto_elim: ae, split }
+        // a quarter of the remaining ones restrict the homological range at some moment of the build
+        let h_range = if split.is_none() && n >= 2 && rng.chance(1, 4) {
+            let n_neg = pd.signs(0).map(|s| s.iter().filter(|x| **x < 0).count()).unwrap_or(0) as isize;
+            let (c0, c1) = (-n_neg, -n_neg + n as isize);
+            let h0 = rng.range((c0 - 1) as i64, (c1 - 1) as i64) as isize;
+            let h1 = rng.range((h0 + 2) as i64, (c1 + 1) as i64) as isize;
+            Some((rng.urange(0, n), h0, h1))
+        } else { None };
+        BuildCfg { order, auto_deloop: ad, auto_elim: ae, split, h_range }
     };
     let nthreads = *rng.choose(&[1usize, 2, 4, 16]);
     let base = if reduced { pd.x.first().map(|c| *c.iter().min().unwrap()) } else { None };
-    let conf = json!({"ring": rname, "origin": origin, "h": h, "t": t, "reduced": reduced, "order": cfg.order, "auto_deloop": cfg.auto_deloop, "auto_elim": cfg.auto_elim, "split": cfg.split, "threads": nthreads});
+    let conf = json!({"ring": rname, "origin": origin, "h": h, "t": t, "reduced": reduced, "order": cfg.order, "auto_deloop": cfg.auto_deloop, "auto_elim": cfg.auto_elim, "split": cfg.split, "h_range_after_k": cfg.h_range, "threads": nthreads});
     let wit = |extra: serde_json::Value| json!({"config": conf, "pd": pd.x, "switched": pd.neg, "detail": extra});
     if ctx.replaying() { eprintln!("replaying: {} pd={:?} switched={:?}", conf, pd.x, pd.neg) }
 
@@ -94,7 +102,11 @@ fn case<R: KhRing>(ctx: &mut Ctx, rng: &mut Rng) where for<'x> &'x R: EucRingOps
     let l = to_link(&pd);
     let pool = &pools()[&nthreads];
     let (cfg2, l2) = (cfg.clone(), l.clone());
-    let bigr = h == 0 && t == 0;
+    let bigr = h == 0 && t == 0 && cfg.h_range.is_none();
+    // with a restricted range only the degrees strictly inside it are determined by the truncated complex
+    let inside = |i: i64| match cfg.h_range { Some((_, h0, h1)) => (h0 as i64) < i && i < (h1 as i64), None => true };
+    let exp_total: BTreeMap<i64, usize> = exp_total.into_iter().filter(|(k, _)| inside(*k)).collect();
+    let exp_tors: Option<Total> = exp_tors.map(|t| t.into_iter().filter(|(k, _)| inside(*k)).collect());
     let res = guarded(move || pool.install(move || {
         let tot = kh_total::<R>(&l2, h, t, reduced, &cfg2);
         let tabs = if bigr { Some((kh_table_pieces::<R>(&l2, reduced, &cfg2), kh_table_total::<R>(&l2, reduced, &cfg2))) } else { None };
@@ -108,6 +120,7 @@ fn case<R: KhRing>(ctx: &mut Ctx, rng: &mut Rng) where for<'x> &'x R: EucRingOps
             return
         }
     };
+    let tot: Total = tot.into_iter().filter(|(k, _)| inside(*k)).collect();
     let lib_ranks: BTreeMap<i64, usize> = tot.iter().filter(|(_, v)| v.0 > 0).map(|(k, v)| (*k, v.0)).collect();
     if lib_ranks != exp_total {
         ctx.violation(&format!("C01/{rname}/rank"), &format!("ranks per homological degree {:?} differ from the cube of resolutions {:?}", lib_ranks, exp_total), wit(json!({"library": tot})));
@@ -141,8 +154,9 @@ fn case<R: KhRing>(ctx: &mut Ctx, rng: &mut Rng) where for<'x> &'x R: EucRingOps
     let nt = n >= 3 || pd.components().len() >= 2 || (h, t) != (0, 0);
     ctx.ok(&class, nt, hash_of(&(&pd.x, &pd.neg, h, t, reduced, &cfg.order, cfg.auto_deloop, cfg.auto_elim, nthreads)));
     ctx.count(&format!("ht/{h},{t}"), 1);
-    if cfg.order.is_some() || !cfg.auto_deloop || !cfg.auto_elim || cfg.split.is_some() { ctx.count("non_default_build_configs", 1) }
+    if cfg.order.is_some() || !cfg.auto_deloop || !cfg.auto_elim || cfg.split.is_some() || cfg.h_range.is_some() { ctx.count("non_default_build_configs", 1) }
     if cfg.split.is_some() { ctx.count("divide_and_conquer_builds", 1) }
+    if cfg.h_range.is_some() { ctx.count("restricted_h_range_builds", 1) }
     if ctx.want_sample(&class) { ctx.sample(&class, json!({"config": conf, "pd": pd.x, "homology": tot})) }
 }
 
